@@ -83,6 +83,7 @@ pub fn supp_reps() -> Vec<Item> {
 }
 
 pub fn explore(ex: &Ex) {
+    super::short_strings(ex, "c18.bytes", &[(Ty::Claims, Entry::Slice), (Ty::Kdf, Entry::Slice), (Ty::Party, Entry::Slice), (Ty::SuppPub, Entry::Slice), (Ty::Timestamp, Entry::Slice)], ex.pick(1usize, 2, 3));
     // claims
     let pairs = gen::claims_pairs();
     let depth = ex.pick(2usize, 3, 4);
